@@ -33,8 +33,13 @@ def check(ctx):
   ctx.rule('C05.R3', 'shared with C05: a leaving endpoint is forgotten by the heap AND by the idle/pending sets (an endpoint left behind in the idle set is picked by a later expansion: '
                      'a departed member gets a node and an open channel again, which no removal closes)')
   c05.r3(ctx)
+  ctx.rule('C05.R2', 'shared with C05: an endpoint that is already a member is never added again (a duplicate join would give it a second node and channel; the leave removes one, the twin keeps '
+                     'receiving requests and is never closed)')
+  c05.r2(ctx)
   from . import c03 as _c03
   _c03.find_node(ctx, 'C04.R4')
+  ctx.rule('C03.R5', 'shared with C03: the sifts move nodes by Swap only and keep Node.index equal to the slot (removal and release address a node by its index: a stale index evicts a different, live member and leaves the departed one in the heap)')
+  _c03.r5(ctx)
 
 
 def r1_r2(ctx):
